@@ -95,6 +95,19 @@ func (x *fx) rootContract() *FuncContract {
 
 func (x *fx) staticCall(ci ssa.CallInstruction, fn *ssa.Function, args []Term, free []Term) []Term {
 	e := x.e
+	if root := x.rootContract(); root != nil && x.top {
+		for _, af := range root.ArgFrom {
+			if fn.Name() == af.Callee && af.Arg < len(ci.Common().Args) {
+				ok := x.producedBy(ci.Common().Args[af.Arg], af.Producer, 0)
+				goal := "true"
+				if !ok {
+					goal = "false"
+				}
+				e.oblig("argfrom", fmt.Sprintf("argfrom:%s#%d", af.Callee, af.Arg), af.Props, x.curReach, goal, x.pos(ci.Pos()),
+					fmt.Sprintf("argument %d of %s is the result of a call of %s in this function", af.Arg, af.Callee, af.Producer))
+			}
+		}
+	}
 	sig := fn.Signature
 	key := FuncKey(fn)
 	inModule := fn.Pkg != nil && strings.HasPrefix(fn.Pkg.Pkg.Path(), ModulePath)
@@ -110,9 +123,8 @@ func (x *fx) staticCall(ci ssa.CallInstruction, fn *ssa.Function, args []Term, f
 			}
 			return x.contractCall(fc, ek, fc.Params, ptypes, args, sig.Results(), nil, ci)
 		}
-		if fn.Blocks == nil {
-			return x.unknownCall("external "+fn.String(), sig.Results(), &Effects{All: true, Why: "external function without stub: " + fn.String()})
-		}
+		// code outside Comcast/sheens is never inlined: without a stub it is an unknown call
+		return x.unknownCall("external "+fn.String(), sig.Results(), &Effects{All: true, Why: "external function without stub: " + fn.String()})
 	}
 	fc := e.P.Contracts.Funcs[key]
 	useContract := fc != nil && !fc.Inline
@@ -253,6 +265,41 @@ func (x *fx) contractCall(fc *FuncContract, key string, names []string, ptypes [
 		}
 		e.oblig("pre", name, props, x.curReach, tv.T, x.pos(ci.Pos()), c.Text)
 	}
+	acrossKey := shortKey(key)
+	if i := strings.LastIndex(acrossKey, "."); i >= 0 {
+		acrossKey = acrossKey[i+1:]
+	}
+	var across []*Clause
+	if root := x.rootContract(); root != nil && x.top {
+		across = root.Across[acrossKey]
+	}
+	for _, c := range across {
+		if c.Profile != "" && c.Profile != e.profile {
+			continue
+		}
+		aenv := x.envAt(x.cur, ci.Block(), nil, true)
+		aenv.pkg = e.pkgOf(x.rootContract())
+		tv, err := aenv.eval(c.Expr)
+		if err != nil {
+			e.bindingError(FuncKey(x.fn), c, err)
+			continue
+		}
+		e.oblig("across", "across-pre@"+acrossKey+":"+fmt.Sprint(c.Line), c.Props, x.curReach, tv.T, x.pos(ci.Pos()), c.Text)
+	}
+	defer func() {
+		for _, c := range across {
+			if c.Profile != "" && c.Profile != e.profile {
+				continue
+			}
+			aenv := x.envAt(x.cur, ci.Block(), nil, true)
+			aenv.pkg = e.pkgOf(x.rootContract())
+			aenv.hyp = true
+			if tv, err := aenv.eval(c.Expr); err == nil {
+				e.assume(implies(x.curReach, tv.T))
+				e.trusted["callbacks of "+acrossKey+" preserve: "+c.Text] = true
+			}
+		}
+	}()
 	pre := x.cur
 	if e.wfree && !fc.Pure {
 		wc := fc.WritesClause(e.profile)
@@ -261,6 +308,11 @@ func (x *fx) contractCall(fc *FuncContract, key string, names []string, ptypes [
 		}
 		if wc == nil {
 			e.oblig("write-target", "write-target:call:"+shortKey(key), e.writeProps, x.curReach, "false", x.pos(ci.Pos()), "call of "+key+" whose written objects are unknown")
+		} else if wc.Since != nil {
+			if tv, err := env.eval(wc.Since); err == nil {
+				e.oblig("write-target", "write-target:call:"+shortKey(key), e.writeProps, x.curReach, fmt.Sprintf("(>= %s %s)", tv.T, e.entryState.alloc), x.pos(ci.Pos()),
+					"call of "+key+" writes only objects allocated during this activation")
+			}
 		} else {
 			for _, m := range wc.Exprs {
 				tv, err := env.eval(m)
@@ -298,7 +350,15 @@ func (x *fx) contractCall(fc *FuncContract, key string, names []string, ptypes [
 				sp.writesAll = true
 			}
 			sp.unknown = false
-			if len(mc.Exprs) == 0 {
+			if mc.Since != nil {
+				if tv, err := env.eval(mc.Since); err == nil {
+					sp.sinceMark = tv.T
+					sp.exact = false
+				} else {
+					e.note("modifies since() of " + key + ": " + err.Error())
+				}
+			}
+			if len(mc.Exprs) == 0 && mc.Since == nil {
 				sp.writesAll = false
 				sp.writes = map[string]bool{}
 			}
@@ -600,4 +660,43 @@ func (x *fx) ghostGet(st *State, key, sort string) Term {
 	t := e.declare("ghost:"+key, sort)
 	e.ghostEntry[key] = t
 	return t
+}
+
+// producedBy: v is the result of a call of the named function made in this
+// function (possibly through a local variable cell that is only ever assigned such results).
+func (x *fx) producedBy(v ssa.Value, producer string, depth int) bool {
+	if depth > 4 {
+		return false
+	}
+	switch t := v.(type) {
+	case *ssa.Call:
+		if f := t.Call.StaticCallee(); f != nil {
+			full := f.Name()
+			if f.Pkg != nil {
+				full = f.Pkg.Pkg.Name() + "." + f.Name()
+			}
+			return full == producer || f.Name() == producer
+		}
+	case *ssa.UnOp:
+		if al, ok := t.X.(*ssa.Alloc); ok {
+			n := 0
+			for _, r := range *al.Referrers() {
+				if st, ok := r.(*ssa.Store); ok && st.Addr == ssa.Value(al) {
+					n++
+					if !x.producedBy(st.Val, producer, depth+1) {
+						return false
+					}
+				}
+			}
+			return n > 0
+		}
+	case *ssa.Phi:
+		for _, ed := range t.Edges {
+			if !x.producedBy(ed, producer, depth+1) {
+				return false
+			}
+		}
+		return len(t.Edges) > 0
+	}
+	return false
 }
